@@ -62,10 +62,15 @@ if [ "${1:-}" = "replay" ]; then
         local a=$(( run / step * step )); local b=$(( a + step )); [ "$b" -gt "$ndig" ] && b="$ndig"; [ "$b" -le "$run" ] && b=$((run+1))
         "$(exe "$1")" c16-digest --seed "$SEED" --from "$a" --to "$b" 2>/dev/null | awk -v r="$run" '$1==r'
       }
-      a="$(one unopt "$w1")"; b="$(one rel "$w1")"; c="$(one optchk "$w1")"; d="$(one optchk 7)"
-      echo "unopt : $a"; echo "rel   : $b"; echo "optchk: $c"; echo "optchk: $d (second process)"
-      if [ "$a" = "$b" ] && [ "$b" = "$c" ] && [ "$c" = "$d" ]; then echo "replay $f: listings agree"; exit 0; fi
-      echo "VIOLATION property=C16 replay=$f"; exit 1;;
+      # a difference *between processes* may itself vary from process to process (hash seeds, address
+      # layout): the comparison is repeated; any disagreement reproduces the violation
+      for attempt in $(seq 1 12); do
+        a="$(one unopt "$w1")"; b="$(one rel "$w1")"; c="$(one optchk "$w1")"; d="$(one optchk 7)"
+        if [ "$a" = "$b" ] && [ "$b" = "$c" ] && [ "$c" = "$d" ]; then continue; fi
+        echo "unopt : $a"; echo "rel   : $b"; echo "optchk: $c"; echo "optchk: $d (second process)"; echo "  (attempt $attempt)"
+        echo "VIOLATION property=C16 replay=$f"; exit 1
+      done
+      echo "optchk: $c"; echo "replay $f: listings agree in 12 attempts"; exit 0;;
     asesim-c16-stress)
       build optchk || exit 2
       run="$(python3 -c 'import json,sys; print(json.load(open(sys.argv[1]))["run"])' "$f")"
